@@ -32,17 +32,40 @@ class Part:
 
 
 class Prop:
-    def __init__(self, pid, level, parts, rule, assumptions, real_stub=None):
+    def __init__(self, pid, level, parts, rule, assumptions, level_text='', level_note='', technique='',
+                 design_ref='DESIGN.md section 3', expected_probes=()):
         self.id = pid
         self.level = level
         self.parts = parts
         self.rule = rule
         self.assumptions = assumptions
+        self.level_text = level_text
+        self.level_note = level_note or TRUSTED
+        self.technique = technique
+        self.design_ref = design_ref
+        self.expected_probes = list(expected_probes)
 
 
 REAL_STUB = ('real: all of zope.interface (Python modules and the C extension compiled from /repo working tree, '
              'both PURE_PYTHON=0 and =1); stubs: user-side objects only (factories, subscribers, hooks, components, '
              '__conform__/__provides__ carriers, lazy required sequences, event sink)')
+
+TRUSTED = ('trusted: the reference model / twin oracle of this machine (written from the documentation and the property '
+           'statement), the simulator itself (seeded PRNG streams, fork-per-run isolation, gc/permute/drop seams), CPython 3.12 '
+           'and gcc; sampled, not exhaustive: bounds per run are small worlds (<= 9 specs, <= 5 registries, <= 40 ops)')
+
+NOT_APPLICABLE = {
+    'C17': 'verifyObject/verifyClass acceptance is a pure function of one (interface signature, implementation signature, '
+           'declared?) triple: no cache, no state, no callback that can fail or re-enter, no configuration axis; a simulator '
+           'would contribute nothing but input generation (DESIGN.md section 4)',
+    'C18': 'fromFunction/fromMethod are pure functions of a code object: no state, schedule, fault or configuration for a '
+           'simulator to own (DESIGN.md section 4)',
+    'C20': 'declaration +, -, iteration, membership and flattened() are pure functions of their operands and never modify them; '
+           'the history-dependent users of the algebra are exercised set-wise under C01 (DESIGN.md section 4)',
+}
+
+# properties that will be claimed but whose check is not built yet
+PENDING = {k: "claimed in DESIGN.md; its check is not built yet in this commit" for k in ("C02 C03 C04 C05 C06 C07 C08 C09 C10 C11 C12 C13 C14 C15 C16").split()}
 
 PROPS = {}
 
@@ -59,11 +82,20 @@ _p('C01', 'exploration',
         'class DAG and instances, checked against DeclModel bounds after every op; distinct_nontrivial = number of '
         'distinct (model lower bound, model upper bound, reported set) abstract states observed for classes and objects',
    assumptions=['DeclModel encodes the documented elision rule: a declaration already implied by the class when made may be dropped',
-                'class __bases__ are never reassigned (documented as unsupported)', REAL_STUB])
+                'class __bases__ are never reassigned (documented as unsupported)', REAL_STUB],
+   level_text='seeded search over declaration histories with scheduled gc / drop-last-reference / permute-notification-order '
+              'faults; every live class and object is checked against the reference model after every operation, in both '
+              'implementations; sampled evidence, not proof',
+   technique='deterministic simulation: seeded declaration histories + gc/drop/permute faults vs DeclModel interval oracle',
+   design_ref='DESIGN.md 3/C01', expected_probes=['shared-provides-hit', 'elision-possible', 'only-form'])
 
 _p('C19', 'exploration',
    [Part('decl', {'super': True}, quick=24000, thorough=600000, name='decl+super')],
    rule='one case = one seeded declaration history with every (C, ob) super proxy along every MRO queried after every op '
         '(providedBy, implementedBy, I.providedBy, queryAdapter/adapter_hook/queryMultiAdapter through a registry holding one '
         'adapter per interface); distinct_nontrivial = distinct (MRO position, model bound, reported set) states',
-   assumptions=['bounds come from DeclModel over the classes after C in type(ob).__mro__', REAL_STUB])
+   assumptions=['bounds come from DeclModel over the classes after C in type(ob).__mro__', REAL_STUB],
+   level_text='seeded search over declaration histories (weak per-class super cache, gc faults) with every (C, ob) proxy along '
+              'every MRO re-queried after every operation and adapted through a real registry; sampled evidence, not proof',
+   technique='deterministic simulation: seeded declaration histories + gc faults, super proxies vs DeclModel over the MRO remainder',
+   design_ref='DESIGN.md 3/C19', expected_probes=['super-query'])
